@@ -331,7 +331,9 @@ pub fn run_world_c(plan: &Rc<Plan>, which: &str) -> Result<CHistory, String> {
     let input: Vec<Ev> = items.iter().map(|it| sh.rec.borrow_mut().record(it)).collect();
     let mut ch = CHistory { input, shape, stack: which.to_owned(), ..CHistory::default() };
     let mut srng = Rng::new(hseed ^ 0xABCD);
-    let mut rand_stats = || -> [usize; 6] { [0; 6].map(|_| srng.below(50) as usize) };
+    // (every counter is zero half of the time: the verdict derived from them - execution_has_failed() - must be
+    // exercised with a single kind of failure present, e.g. hook errors only)
+    let mut rand_stats = || -> [usize; 6] { [0; 6].map(|_| if srng.chance(1, 2) { 0 } else { srng.below(50) as usize }) };
     let e = cli::Empty;
     let comp = || cli::Compose { left: cli::Empty, right: cli::Empty };
 
